@@ -199,6 +199,33 @@ theorem reported_wavelength_isotropic {R : Type} [Field R] [RealLike R] [FftLike
   · simp only; field_simp
   · simp only; rw [← hiso]; field_simp
 
+/-- **Per-axis sampling with consistent grids: alpha = (1/S0, 1/S1) at the reported wavelength.** Anisotropic `dx·du` is fine as
+long as both axes lead to the same wavelength, `S0·dx0·du0 = S1·dx1·du1` (e.g. `1/alpha` integral on each axis: a 20×40
+grid from pixelscale (5 µm, 2.5 µm)): the single reported wavelength then describes both axes. (The open known finding
+is the complementary case, where the per-axis wavelengths differ.) -/
+theorem reported_wavelength_consistent {R : Type} [Field R] [RealLike R] [FftLike R]
+    (hcast : ∀ n : Int, (RealLike.ofInt n : R) = (n : R)) (hmin : ∀ a : R, FftLike.min a a = a)
+    (dx0 dx1 du0 du1 z wl : R) (os S0 S1 : Int) (hcons : (S0 : R) * (dx0 * du0) = (S1 : R) * (dx1 * du1))
+    (hp0 : dx0 * du0 ≠ 0) (hp1 : dx1 * du1 ≠ 0) (hz : z ≠ 0) (hos : (os : R) ≠ 0) (hS0 : (S0 : R) ≠ 0) (hS1 : (S1 : R) ≠ 0) :
+    dftAlpha dx0 dx1 du0 du1 (propWavelength S0 S1 dx0 dx1 du0 du1 z wl os) z os = (1 / (S0 : R), 1 / (S1 : R)) := by
+  unfold dftAlpha propWavelength
+  simp only [Gen.dftAlphaCall, Gen.dftAlpha, Gen.fftReportedWavelengths, Gen.fftWavelengths]
+  rw [hcast, hcast, hcast]
+  have e : ((S1 : R) / (os : R) * dx1 * du1) / z = ((S0 : R) / (os : R) * dx0 * du0) / z := by
+    have : (S1 : R) / (os : R) * dx1 * du1 = (S0 : R) / (os : R) * dx0 * du0 := by
+      field_simp; linear_combination -hcons
+    rw [this]
+  rw [e, hmin]
+  have h0 : dx0 ≠ 0 := left_ne_zero_of_mul hp0
+  have h1 : du0 ≠ 0 := right_ne_zero_of_mul hp0
+  refine Prod.ext ?_ ?_
+  · simp only; field_simp
+  · simp only
+    have h2 : dx1 ≠ 0 := left_ne_zero_of_mul hp1
+    have h3 : du1 ≠ 0 := right_ne_zero_of_mul hp1
+    field_simp
+    linear_combination -hcons
+
 /-- **Scale invariance.** Multiplying every length (pixel scales, wavelength, focal length) by `k ≠ 0` leaves the FFT grid
 unchanged and multiplies the reported wavelength by `k`: grid, refusals and field do not depend on the length unit. -/
 theorem fft_scale_invariant {R : Type} [Field R] [RealLike R] [FftLike R]
@@ -280,7 +307,8 @@ theorem fft_eq_dft_at_reported_wavelength (hcast : ∀ n : Int, (RealLike.ofInt 
     (one : K) (fs : List (Fld K)) (W0 W1 : Int) (dx0 dx1 du0 du1 wl z : R) (os : Int)
     (shape : Option (Int × Int)) (scratch : Option (Arr K)) (lam : R) (S0 S1 : Int) (so : Int × Int) (g : Fld K)
     (h : propagateFft one fs false W0 W1 dx0 dx1 du0 du1 wl z os shape scratch = FftOut.ok lam S0 S1 so g)
-    (hiso : dx0 * du0 = dx1 * du1) (hp : dx0 * du0 ≠ 0) (hz : z ≠ 0) (hos : (os : R) ≠ 0) (hS : 0 < S0)
+    (hcons : dx0 * du0 = dx1 * du1 ∨ (S0 : R) * (dx0 * du0) = (S1 : R) * (dx1 * du1))
+    (hp : dx0 * du0 ≠ 0) (hp1 : dx1 * du1 ≠ 0) (hz : z ≠ 0) (hos : (os : R) ≠ 0) (hS : 0 < S0) (hS1 : 0 < S1)
     (hnorm : (RealLike.ofInt 1 : R) / RealLike.sqrt (RealLike.ofInt (S0 * S1)) =
       RealLike.sqrt (RealLike.abs (1 / (S0 : R) * (1 / (S1 : R))))) (u v : Int) :
     g.arr.get u v =
@@ -293,20 +321,24 @@ theorem fft_eq_dft_at_reported_wavelength (hcast : ∀ n : Int, (RealLike.ofInt 
   · simp only [propagateFft, Bool.false_eq_true, if_false, hb, ht, if_true] at h; cases h
   simp only [propagateFft, Bool.false_eq_true, if_false, hb, ht, FftOut.ok.injEq] at h
   obtain ⟨hl, h0, h1, _, hg⟩ := h
-  -- isotropic sampling gives a square grid
-  have hsq : S0 = S1 := by
-    rw [← h0, ← h1]; simp only [fftShape, Gen.fftShapeAlpha, Gen.fftAlphaCall, Gen.dftAlpha, hiso]
-  subst hsq
+  -- isotropic sampling gives a square grid; in either case both axes lead to the same wavelength
+  have hc : (S0 : R) * (dx0 * du0) = (S1 : R) * (dx1 * du1) := by
+    rcases hcons with hiso | hc
+    · have hsq : S0 = S1 := by
+        rw [← h0, ← h1]; simp only [fftShape, Gen.fftShapeAlpha, Gen.fftAlphaCall, Gen.dftAlpha, hiso]
+      rw [hsq, hiso]
+    · exact hc
   have hSR : (S0 : R) ≠ 0 := Int.cast_ne_zero.mpr (by omega)
+  have hSR1 : (S1 : R) ≠ 0 := Int.cast_ne_zero.mpr (by omega)
   rw [h0, h1] at hl hg
-  have hα := reported_wavelength_isotropic hcast hmin dx0 dx1 du0 du1 z wl os S0 hiso hp hz hos hSR
+  have hα := reported_wavelength_consistent hcast hmin dx0 dx1 du0 du1 z wl os S0 S1 hc hp hp1 hz hos hSR hSR1
   rw [hl] at hα
-  have hsh : (fftGrid one fs W0 W1 S0 S0 scratch).s0 = S0 ∧ (fftGrid one fs W0 W1 S0 S0 scratch).s1 = S0 := by
+  have hsh : (fftGrid one fs W0 W1 S0 S1 scratch).s0 = S0 ∧ (fftGrid one fs W0 W1 S0 S1 scratch).s1 = S1 := by
     cases scratch with
     | none => exact ⟨rfl, rfl⟩
-    | some scr => exact foldInsert_shape fs (zeroedCorner scr S0 S0) one
-  have key := fft_path_is_unitary_dft hcast hper (fftGrid one fs W0 W1 S0 S0 scratch)
-    (by rw [hsh.1]; exact hS) (by rw [hsh.2]; exact hS) (by rw [hsh.1, hsh.2]; exact hnorm) u v
+    | some scr => exact foldInsert_shape fs (zeroedCorner scr S0 S1) one
+  have key := fft_path_is_unitary_dft hcast hper (fftGrid one fs W0 W1 S0 S1 scratch)
+    (by rw [hsh.1]; exact hS) (by rw [hsh.2]; exact hS1) (by rw [hsh.1, hsh.2]; exact hnorm) u v
   rw [hsh.1, hsh.2] at key
   rw [← hg, hα]
   exact key
@@ -324,7 +356,8 @@ theorem fft_path_is_unitary_dft_complex (x : Arr ℂ) (hS0 : 0 < x.s0) (hS1 : 0 
   fft_path_is_unitary_dft (fun _ => rfl) rootPeriodic_complex x hS0 hS1
     (norm_complex x.s0 x.s1 hS0 hS1) u v
 
-/-- **FFT propagation returns the same complex field as DFT propagation at the wavelength it reports** (isotropic `dx·du`),
+/-- **FFT propagation returns the same complex field as DFT propagation at the wavelength it reports** (isotropic `dx·du`, or
+per-axis sampling whose two axes lead to the same wavelength `S0·dx0·du0 = S1·dx1·du1`, e.g. non-square grids 20×40),
 at `K = ℂ`, `R = ℝ`, for every output shape it accepts and with or without scratch: whenever `propagate_fft` answers
 (grid `S0 x S1`, output shape `so`, reported wavelength `lam`), every sample `[i][j]` of its `Wavefront.field` equals the
 sample of `Wavefront.field` of `propagate_dft` applied to the same fields with `alpha = dx·du/(lam·z·os)` and the same
@@ -333,7 +366,8 @@ fields on its canvas (the regime `propagate_fft` supports). -/
 theorem fft_eq_propagate_dft (fs : List (Fld ℂ)) (W0 W1 : Int) (dx0 dx1 du0 du1 wl z : ℝ) (os : Int)
     (shape : Option (Int × Int)) (scratch : Option (Arr ℂ)) (lam : ℝ) (S0 S1 : Int) (so : Int × Int) (g : Fld ℂ)
     (h : propagateFft 1 fs false W0 W1 dx0 dx1 du0 du1 wl z os shape scratch = FftOut.ok lam S0 S1 so g)
-    (hiso : dx0 * du0 = dx1 * du1) (hp : dx0 * du0 ≠ 0) (hz : z ≠ 0) (hos : 0 < os) (hS : 0 < S0 ∧ 0 < S1)
+    (hcons : dx0 * du0 = dx1 * du1 ∨ (S0 : ℝ) * (dx0 * du0) = (S1 : ℝ) * (dx1 * du1))
+    (hp : dx0 * du0 ≠ 0) (hp1 : dx1 * du1 ≠ 0) (hz : z ≠ 0) (hos : 0 < os) (hS : 0 < S0 ∧ 0 < S1)
     (hW : 0 ≤ W0 ∧ W0 ≤ S0 ∧ 0 ≤ W1 ∧ W1 ≤ S1) (hfit : ∀ f ∈ fs, f.within W0 W1)
     (hpos : ∀ f ∈ fs, 0 < f.arr.s0 ∧ 0 < f.arr.s1) (hso : 0 < so.1 ∧ 0 < so.2)
     (i j : Int) (hi : 0 ≤ i ∧ i < so.1) (hj : 0 ≤ j ∧ j < so.2) :
@@ -344,7 +378,7 @@ theorem fft_eq_propagate_dft (fs : List (Fld ℂ)) (W0 W1 : Int) (dx0 dx1 du0 du
   have hosR : ((os : ℤ) : ℝ) ≠ 0 := Int.cast_ne_zero.mpr (by omega)
   -- the FFT output is dft2 of the padded grid at the reported wavelength
   have hfft := fft_eq_dft_at_reported_wavelength (K := ℂ) (R := ℝ) (fun _ => rfl) rootPeriodic_complex (fun a => min_self a)
-    1 fs W0 W1 dx0 dx1 du0 du1 wl z os shape scratch lam S0 S1 so g h hiso hp hz hosR hS.1 (norm_complex S0 S1 hS.1 hS.2)
+    1 fs W0 W1 dx0 dx1 du0 du1 wl z os shape scratch lam S0 S1 so g h hcons hp hp1 hz hosR hS.1 hS.2 (norm_complex S0 S1 hS.1 hS.2)
   -- unpack the accepted call: offsets 0, output shape fits the grid
   have hg : g.o0 = 0 ∧ g.o1 = 0 ∧ g.arr.s0 = S0 ∧ g.arr.s1 = S1 ∧ so.1 ≤ S0 ∧ so.2 ≤ S1 := by
     by_cases hb : shapeTooBig (R := ℝ) shape (fftShape dx0 dx1 du0 du1 z wl os) os = true
